@@ -303,6 +303,10 @@ def render(t, rng, qualified_any=False):
   def stub_text(st):
     return {"T": T, "U": U, "Any": anyt, "Never": nevt, "triv": triv, "Lit": lit}[st]
 
+  def ex_text(ex):
+    # what the author wrote: his own Any / Never are always spelled bare, QAny is typing.Any
+    return {"T": T, "Any": "Any", "Never": "Never", "QAny": "typing.Any"}[ex]
+
   slots = t["slots"]
   fslots = [s for s in slots if s["kind"] in ("param", "ret")]
   src_ann, stub_ann = [], []
@@ -326,9 +330,9 @@ def render(t, rng, qualified_any=False):
       name = "p%d" % (n + 1)
       names.append("%s(%s)" % (fq, name))
       leaves.append("")
-      e = ": " + T if s["ex"] == "T" else ""
-      if s["ex"] == "T":
-        src_ann.append(T)
+      e = ": " + ex_text(s["ex"]) if s["ex"] != "none" else ""
+      if s["ex"] != "none":
+        src_ann.append(ex_text(s["ex"]))
       a = ""
       if s["st"] != "none":
         a = ": " + stub_text(s["st"])
@@ -357,9 +361,9 @@ def render(t, rng, qualified_any=False):
       tp.insert(at, "extra")
     names.append(fq + "()")
     leaves.append("")
-    re_ = " -> " + T if ret["ex"] == "T" else ""
-    if ret["ex"] == "T":
-      src_ann.append(T)
+    re_ = " -> " + ex_text(ret["ex"]) if ret["ex"] != "none" else ""
+    if ret["ex"] != "none":
+      src_ann.append(ex_text(ret["ex"]))
     ra = ""
     if ret["st"] != "none":
       ra = " -> " + stub_text(ret["st"])
@@ -391,7 +395,7 @@ def render(t, rng, qualified_any=False):
     nv += 1
     cls = s["kind"] == "clsvar"
     name = ("cv%d" if cls else "mv%d") % nv
-    names.append(("K." if cls else "") + name)
+    names.append(("K." if cls else ("h%d." % nv) if s["ctx"] == "localann" else "") + name)
     leaves.append(name)
     ind = "  " if cls else ""
     val = rng.choice(["0", "None", "[]", "make()"])
@@ -402,8 +406,14 @@ def render(t, rng, qualified_any=False):
     if c == "assign":
       lines = ["%s = %s" % (name, val)]
     elif c == "annotated":
-      lines = ["%s: %s = %s" % (name, T, val)]
-      src_ann.append(T)
+      lines = ["%s: %s = %s" % (name, ex_text(s["ex"]), val)]
+      src_ann.append(ex_text(s["ex"]))
+    elif c == "decl":     # a value-less declaration the author wrote (module level or class body)
+      lines = ["%s: %s" % (name, ex_text(s["ex"]))]
+      src_ann.append(ex_text(s["ex"]))
+    elif c == "localann":   # an annotated local; the stub describes a module variable of that name
+      lines = ["def h%d():" % nv, "  %s: %s = %s" % (name, ex_text(s["ex"]), val), "  return %s" % name]
+      src_ann.append(ex_text(s["ex"]))
     elif c == "tuple":
       lines = ["%s, %s_b = %s, 1" % (name, name, val)]
     elif c == "multi":
